@@ -153,6 +153,7 @@ Proof.
   assert (Hbb : b * b = sv) by (apply sqrt_sqrt; lra).
   set (c := d / (a * b)).
   replace (Reqb (acos c - acos c) 0) with true by (symmetry; apply Reqb_true; ring).
+  cbn [negb].
   assert (Hab : 0 < a * b) by nra.
   assert (Hc2 : 1 - c * c = S / ((a * b) * (a * b))).
   { unfold c. rewrite HL. replace su with (a * a) by exact Haa. replace sv with (b * b) by exact Hbb.
@@ -163,6 +164,17 @@ Proof.
   rewrite sqrt_div_alt by nra. rewrite (sqrt_square (a * b)) by lra.
   assert (HsS : 0 < sqrt S) by (apply sqrt_lt_R0; exact HS0).
   unfold c. unfold Rdiv. rewrite !Rinv_mult, !Rinv_inv. field. split; [lra|split; lra].
+Qed.
+
+(* over R the two overloads of get_angle_with agree (no NaN, no infinity) *)
+Lemma angle_with_nan_R (u v : vR) : angle_with_nan NumR LibmRF u v = angle_with NumR LibmRF u v.
+Proof.
+  unfold angle_with_nan, angle_with, isnan, isfinite.
+  cbn [neqb nsub nzero NumR].
+  set (a := lacos LibmRF _).
+  replace (Reqb a a) with true by (symmetry; apply Reqb_true; reflexivity).
+  replace (Reqb (a - a) 0) with true by (symmetry; apply Reqb_true; ring).
+  reflexivity.
 Qed.
 
 (* the coefficient of the face normal in the sum of the four theta-gradients vanishes:
@@ -216,8 +228,8 @@ Section HingeForces.
   Definition hf_e3 : vR := x3 -v x2.
   Definition hf_e4 : vR := x4 -v x2.
   Definition hf_me0 : vR := hf_e0 *v (Ropp 1).
-  Definition hf_al1 : R := angle_with NumR LibmRF hf_e0 hf_e1.
-  Definition hf_al2 : R := angle_with NumR LibmRF hf_e0 hf_e2.
+  Definition hf_al1 : R := angle_with_nan NumR LibmRF hf_e0 hf_e1.
+  Definition hf_al2 : R := angle_with_nan NumR LibmRF hf_e0 hf_e2.
   Definition hf_al3 : R := angle_with NumR LibmRF hf_e3 hf_me0.
   Definition hf_al4 : R := angle_with NumR LibmRF hf_e4 hf_me0.
   Definition hf_el : R := vnorm NumR hf_e0.
@@ -229,12 +241,13 @@ Section HingeForces.
   Definition hf_g2t : vR := n1 *v (hf_el / (2 * A1)).
   Definition hf_g3t : vR := n2 *v (hf_el / (2 * A2)).
   Definition hf_hp : R := PI / 2.
+  Definition hf_mhp : R := (Ropp PI) / 2.          (* -M_PI / 2. as the source writes it *)
   Definition hf_rot (v axis : vR) (ang : R) : vR := rotate_around_axis NumR LibmRF v axis ang.
   Definition hf_t1 : vR := hf_rot hf_e1 n1 hf_hp.
-  Definition hf_t2 : vR := hf_rot hf_e2 n2 (Ropp hf_hp).
-  Definition hf_t3 : vR := hf_rot hf_e3 n1 (Ropp hf_hp).
+  Definition hf_t2 : vR := hf_rot hf_e2 n2 hf_mhp.
+  Definition hf_t3 : vR := hf_rot hf_e3 n1 hf_mhp.
   Definition hf_t4 : vR := hf_rot hf_e4 n2 hf_hp.
-  Definition hf_t00 : vR := hf_rot hf_e0 n1 (Ropp hf_hp).
+  Definition hf_t00 : vR := hf_rot hf_e0 n1 hf_mhp.
   Definition hf_t01 : vR := hf_rot hf_e0 n2 hf_hp.
   Definition hf_pf3 : R := (hf_el * hf_el) / ((2 * hf_sumA) * hf_sumA).
   Definition hf_g0i : vR := (hf_e0 *v ((Ropp 2) / hf_sumA)) +v ((hf_t3 +v hf_t4) *v hf_pf3).
@@ -254,7 +267,8 @@ Section HingeForces.
     hf_g0i +v hf_g1i +v hf_g2i +v hf_g3i = mkv 0 0 0.
   Proof.
     intros H10 H11 H13 H20 H22 H24.
-    unfold hf_g0i, hf_g1i, hf_g2i, hf_g3i, hf_t1, hf_t2, hf_t3, hf_t4, hf_t00, hf_t01, hf_rot, hf_hp.
+    unfold hf_g0i, hf_g1i, hf_g2i, hf_g3i, hf_t1, hf_t2, hf_t3, hf_t4, hf_t00, hf_t01, hf_rot, hf_hp, hf_mhp.
+    replace (Ropp PI / 2) with (Ropp (PI / 2)) by field.
     rewrite !rot_hp, !rot_mhp. rewrite H10, H11, H13, H20, H22, H24.
     unfold Rdiv. generalize hf_pf3 (/ hf_sumA). intros p3 is.
     unfold hf_e0, hf_e1, hf_e2, hf_e3, hf_e4.
@@ -273,6 +287,7 @@ Section HingeForces.
     pose proof (theta_coeff x1 x2 x3 A1 HA1 HA10 Hel) as C1.
     pose proof (theta_coeff x1 x2 x4 A2 HA2 HA20 Hel) as C2.
     fold hf_e0 hf_e1 hf_e2 hf_e3 hf_e4 in C1, C2. fold hf_me0 in C1, C2.
+    rewrite <- (angle_with_nan_R hf_e0 hf_e1) in C1. rewrite <- (angle_with_nan_R hf_e0 hf_e2) in C2.
     fold hf_al1 hf_al2 hf_al3 hf_al4 in C1, C2. fold hf_el in C1, C2. fold hf_minv in C1, C2.
     fold (hf_cot hf_al1) (hf_cot hf_al2) (hf_cot hf_al3) (hf_cot hf_al4) in C1, C2.
     assert (E : hf_g0t +v hf_g1t +v hf_g2t +v hf_g3t =
